@@ -466,3 +466,22 @@ func sources(v ssa.Value) map[string]bool {
 	walk(v, 0)
 	return out
 }
+
+// resolve looks through conversions and loads of cells that are stored exactly once
+// (closure-captured parameters and locals).
+func resolve(v ssa.Value) ssa.Value {
+	for i := 0; i < 20; i++ {
+		v = strip(v)
+		u, ok := v.(*ssa.UnOp)
+		if !ok || u.Op != token.MUL {
+			return v
+		}
+		var cell ssa.Value = u.X
+		if st := allocStores(cell); len(st) == 1 {
+			v = st[0].Val
+			continue
+		}
+		return v
+	}
+	return v
+}
